@@ -134,9 +134,6 @@ type ListConfig struct {
 	IndentLevel  int        // 缩进级别（0-8）
 }
 
-// 全局编号管理器
-var globalNumberingManager *NumberingManager
-
 // NumberingManager 编号管理器
 type NumberingManager struct {
 	nextAbstractNumID int
@@ -145,17 +142,17 @@ type NumberingManager struct {
 	numInstances      map[string]*NumInstance
 }
 
-// getNumberingManager 获取全局编号管理器
-func getNumberingManager() *NumberingManager {
-	if globalNumberingManager == nil {
-		globalNumberingManager = &NumberingManager{
+// getNumberingManager 获取当前文档的编号管理器（每个文档独立，原因同 getFootnoteManager）
+func (d *Document) getNumberingManager() *NumberingManager {
+	if d.numberingManager == nil {
+		d.numberingManager = &NumberingManager{
 			nextAbstractNumID: 0,
 			nextNumID:         1,
 			abstractNums:      make(map[string]*AbstractNum),
 			numInstances:      make(map[string]*NumInstance),
 		}
 	}
-	return globalNumberingManager
+	return d.numberingManager
 }
 
 // AddListItem 添加列表项
@@ -289,7 +286,7 @@ func (d *Document) initializeNumbering() {
 
 // getOrCreateNumbering 获取或创建编号定义
 func (d *Document) getOrCreateNumbering(config *ListConfig) string {
-	manager := getNumberingManager()
+	manager := d.getNumberingManager()
 
 	// 生成抽象编号键
 	// 键必须包含决定级别定义的全部配置（类型、符号、起始编号）：
@@ -387,7 +384,7 @@ func (d *Document) createLevel(levelIndex int, config *ListConfig) *Level {
 
 // updateNumberingFile 更新编号定义文件
 func (d *Document) updateNumberingFile() {
-	manager := getNumberingManager()
+	manager := d.getNumberingManager()
 
 	numbering := &Numbering{
 		Xmlns:              "http://schemas.openxmlformats.org/wordprocessingml/2006/main",
@@ -434,7 +431,7 @@ func (d *Document) addNumberingRelationship() {
 func (d *Document) RestartNumbering(numID string) {
 	// 重置编号计数器
 	// 在实际实现中，需要创建新的编号实例来重置计数
-	manager := getNumberingManager()
+	manager := d.getNumberingManager()
 
 	// 创建新的编号实例
 	newNumID := strconv.Itoa(manager.nextNumID)
